@@ -33,7 +33,7 @@ RULE = (
     "(b) nested REUSE.toml hierarchies (root, sub/, sub/deep/, other/ with '**', '*.py' and exact tables, closest / aggregate / override, partial "
     "information) over 6..20 files, lines ending in two stacked comment terminators, LICENSES/ with several texts.  Variants per tree (>= 10): "
     "serial; pool of k in {1, 2, 3, 16} workers; 2 permutations of every directory listing (os.walk and glob) serial and pooled; 3 PYTHONHASHSEED values "
-    "in fresh interpreters; cwd = root / sub-directory with --root .. / outside with --root absolute, relative and 'proj/../proj/.'.  Oracle: normalised "
+    "in fresh interpreters; cwd = root / sub-directory with --root .. / outside with --root absolute, relative, 'proj/../proj/.' and 'other/link/..' through a symbolic link into the project; inside a Git work tree without --root from the root, a sub-directory and a nested directory holding a LICENSES/ of its own (compared with one another).  Oracle: normalised "
     "lint --json (lists sorted, paths relative to the root) and normalised spdx --add-license-concluded (namespace UUID and timestamp masked, sections "
     "sorted) identical across all variants.  Non-trivial = tree with >= 2 REUSE.toml or dep5 or >= 8 files, and >= 10 variants compared; distinct by tree."
 )
@@ -161,7 +161,10 @@ def norm_lint(out, cwd, root):
         if not p.is_absolute():
             # file paths are printed as walked (relative to the cwd), LICENSES/ paths relative to the root
             p = Path(cwd) / p if os.path.lexists(Path(cwd) / p) or not os.path.lexists(Path(root) / p) else Path(root) / p
-        return os.path.relpath(os.path.normpath(p), os.path.realpath(root) if str(p).startswith(os.path.realpath(root)) else root)
+        # the directory part is resolved the way the kernel does (a root spelled 'other/link/..' is the parent of the link's
+        # target, not 'other'); the last component stays what it is
+        q = os.path.join(os.path.realpath(p.parent), p.name) if os.path.isdir(p.parent) else os.path.normpath(p)
+        return os.path.relpath(q, os.path.realpath(root))
 
     nc = data["non_compliant"]
     res = {
@@ -208,6 +211,8 @@ def check(ctx, c):
             ntoml = 2 if t["state"]["gkind"] == "dep5" else 1
             nfiles = len(t["state"]["files"])
         (root / "sub").mkdir(exist_ok=True)
+        # a vendored component with a LICENSES/ directory of its own below sub/
+        tree.write_tree(root, {"sub/vendored/LICENSES/Zlib.txt": "text\n", "sub/vendored/lib.c": "/* SPDX-FileCopyrightText: 2012 Vendor */\n/* SPDX-License-Identifier: Zlib */\n"})
         results = {}
         spdx_args = ["spdx", "--add-license-concluded", "--creator-person", "V"]
 
@@ -242,10 +247,27 @@ def check(ctx, c):
         for name, cwd, pre in (("sub-dotdot", sub, ["--root", ".."]), ("outside-abs", base, ["--root", str(root)]), ("outside-rel", base, ["--root", rootname]),
                                ("outside-nonnorm", base, ["--root", f"{rootname}/../{rootname}/."]), ("root-dot", root, ["--root", "."])):
             record(name, cli.run([*pre, "--no-multiprocessing", "lint", "--json"], cwd), cli.run([*pre, "--no-multiprocessing", *spdx_args], cwd), cwd)
+        # the root reached through a symbolic link and '..': 'other/lnk/..' with lnk -> <root>/sub is the root itself (the kernel resolves
+        # the link first), whereas tidying the spelling up lexically gives 'other'
+        (base / "other").mkdir()
+        os.symlink(os.path.join("..", rootname, "sub"), base / "other" / "lnk")
+        record("outside-link-dotdot", cli.run(["--root", "other/lnk/..", "--no-multiprocessing", "lint", "--json"], base),
+               cli.run(["--root", "other/lnk/..", "--no-multiprocessing", *spdx_args], base), base)
         # hash seeds: fresh interpreters
         for hs in c["hashseeds"]:
             record(f"hashseed{hs}", cli.run_sub(["--no-multiprocessing", "lint", "--json"], root, hashseed=hs),
                    cli.run_sub(["--no-multiprocessing", *spdx_args], root, hashseed=hs), root)
+        # inside a Git work tree the root is found from any working directory below it, also from one that looks like a project of
+        # its own (it holds a LICENSES/ directory); these runs are compared with one another
+        git_results = {}
+        if True:
+            tree.git_init(root)
+            for name, cwd in (("git:cwd=root", root), ("git:cwd=sub", sub), ("git:cwd=sub/vendored", sub / "vendored")):
+                rl, rs = cli.run(["--no-multiprocessing", "lint", "--json"], cwd), cli.run(["--no-multiprocessing", *spdx_args], cwd)
+                if rl.crash is not None or rs.crash is not None or rl.code not in (0, 1) or rs.code != 0:
+                    git_results[name] = ({"outcome": type(rl.crash).__name__ if rl.crash else rl.code}, {"outcome": type(rs.crash).__name__ if rs.crash else rs.code}, rl.code)
+                else:
+                    git_results[name] = (norm_lint(rl.out, cwd, root), norm_spdx(rs.out), rl.code)
         ctx.count(c["tree"], nontrivial=(ntoml >= 2 or nfiles >= 8) and len(results) >= 10,
                   labels=[f"tree:{t['kind']}", f"tomls:{min(ntoml, 4)}", f"variants:{len(results)}"],
                   sample={"kind": t["kind"], "files": sorted(t["files"])[:10] if t["kind"] == "nested" else [f["path"] for f in t["state"]["files"]], "variants": sorted(results)})
@@ -255,22 +277,31 @@ def check(ctx, c):
             # recorded finding: with a root directory that is itself called 'subprojects', spelling the root as '.' or '..'
             # hides that name from the Meson rule.  Accepted only if that spelling is the ONLY thing that matters:
             # each of the two groups of variants must agree internally.
-            group_b = {"root-dot", "sub-dotdot"}
+            group_b = {"root-dot", "sub-dotdot", "outside-link-dotdot"}
             a = [v for k, v in results.items() if k not in group_b]
             b = [v for k, v in results.items() if k in group_b]
             if all(x == a[0] for x in a) and all(x == b[0] for x in b) and a[0] != b[0]:
                 ctx.fail(c, "root directory named 'subprojects': results with --root . / --root .. differ from those with any other root spelling", "root-dir-named-subprojects")
                 return
-        for name, got in results.items():
+        gref = git_results.get("git:cwd=root")
+        for name, got in list(results.items()) + [(k, v) for k, v in git_results.items()]:
+            if name.startswith("git:"):
+                ref = gref
             for part, label in ((0, "lint --json"), (1, "spdx"), (2, "lint exit status")):
                 if got[part] != ref[part]:
                     a, b = ref[part], got[part]
                     if isinstance(a, dict):
                         keys = [k for k in a if a[k] != b.get(k)]
-                        detail = {k: (a[k], b.get(k)) for k in keys[:2]}
+
+                        def delta(x, y):
+                            if isinstance(x, list) and isinstance(y, list):
+                                return {"only in the first": [i for i in x if i not in y][:3], "only in the second": [i for i in y if i not in x][:3]}
+                            return (x, y)
+
+                        detail = {k: delta(a[k], b.get(k)) for k in keys[:3]}
                     else:
                         detail = (a, b)
-                    ctx.fail(c, f"{label} differs between variant 'serial' and variant '{name}': {json.dumps(detail, ensure_ascii=False, default=str)[:1500]}")
+                    ctx.fail(c, f"{label} differs between variant '{'git:cwd=root' if name.startswith('git:') else 'serial'}' and variant '{name}': {json.dumps(detail, ensure_ascii=False, default=str)[:1500]}")
     finally:
         tree.rmtree(base)
 
